@@ -20,7 +20,7 @@ CXX_COMMON = ['-std=c++17', '-fno-exceptions', '-fno-rtti', '-fno-access-control
 FE_FLAGS = ['-O1', '-Xclang', '-disable-llvm-passes', '-fno-pic', '-fno-pie', '-fno-vectorize', '-fno-slp-vectorize', '-fno-unroll-loops']
 UBSAN_TRAP = ['-fsanitize=shift-exponent,signed-integer-overflow,integer-divide-by-zero,array-bounds', '-fsanitize-trap=all']
 CBMC_BASE = ['--unwinding-assertions', '--drop-unused-functions', '--no-undefined-shift-check', '--no-signed-overflow-check',
-             '--no-malloc-may-fail', '--no-pointer-primitive-check', '--no-built-in-assertions', '--sat-solver', 'cadical', '--verbosity', '6']
+             '--no-malloc-may-fail', '--no-pointer-primitive-check', '--no-built-in-assertions', '--sat-solver', 'cadical', '--verbosity', '8']
 SLICE = ['--slice-formula']   # main runs only: a sliced trace would drop nondet values outside the cone and misalign the replay stream
 
 EXIT_OK, EXIT_VIOLATION, EXIT_BROKEN = 0, 1, 2
